@@ -327,6 +327,10 @@ def fullintent_cases(tier):
         if k == 2:
             rows.append(full)           # the wide intent belongs to a two-object extent
         yield dict(gen.case(f'FULLINTENT{m}', rows, m, 'rev'), fullintent=True)
+    # every object has every property: the lattice is a single concept whose extent is not empty and whose
+    # intent is generated by every subset of it, the empty one first
+    for m, n in ([(17, 3)] if tier == 'quick' else [(17, 3), (18, 2), (19, 1), (17, 1)]):
+        yield dict(gen.case(f'FULLINTENT-ALLTRUE{m}', [(1 << m) - 1] * n, m, 'rev'), fullintent=True)
 
 
 def run_fullintent(concepts, case, spec):
